@@ -62,3 +62,17 @@ def expectedComplex : Shape → Option Bool
   | .other => none
 
 end Spec.Classify
+
+namespace Spec.Classify
+
+/-- an empty object whatever its `format`: no `$ref`, `type` absent or `"object"`, none of
+    `properties`, `allOf`, `additionalProperties`, `items`, `additionalItems`.  (`shapeOf` makes no
+    statement about a `format` on a non-primitive; the documented rule "empty objects are not
+    complex" does not depend on it.) -/
+def isEmptyObject (s : J) : Bool :=
+  Doc.refStr s = "" &&
+  ((s.get? "type").isNone || (match s.get? "type" with | some (.str "object") => true | _ => false)) &&
+  (s.get? "properties").isNone && (s.get? "allOf").isNone && (s.get? "additionalProperties").isNone &&
+  (s.get? "items").isNone && (s.get? "additionalItems").isNone
+
+end Spec.Classify
